@@ -12,8 +12,11 @@ package main
 import (
 	"go/ast"
 	"go/constant"
+
 	"go/token"
 	"go/types"
+	"golang.org/x/tools/go/packages"
+	"golang.org/x/tools/go/types/typeutil"
 	"sort"
 	"strings"
 )
@@ -31,15 +34,16 @@ const (
 )
 
 type guardInfo struct {
-	constRHS ast.Expr // non-nil: the guard compares the result with this constant expression
-	constNeg bool     // the comparison is !=
-	negated  bool     // the whole condition is under an odd number of !
-	ifs     *ast.IfStmt
-	kind    int // 1 following statement, 2 if-init, 3 call in the condition
-	k       int // index of the tested result
-	eval    func(valKind) (bool, bool)
-	lhsObjs []types.Object // caller variables that receive the results (nil entries: blank)
-	lhsText []string
+	pkgs     *packages.Package // the package under transformation (for summaries of own functions)
+	constRHS ast.Expr          // non-nil: the guard compares the result with this constant expression
+	constNeg bool              // the comparison is !=
+	negated  bool              // the whole condition is under an odd number of !
+	ifs      *ast.IfStmt
+	kind     int // 1 following statement, 2 if-init, 3 call in the condition
+	k        int // index of the tested result
+	eval     func(valKind) (bool, bool)
+	lhsObjs  []types.Object // caller variables that receive the results (nil entries: blank)
+	lhsText  []string
 }
 
 // side results of condOn for comparisons with a constant that is neither nil, "" nor a boolean
@@ -440,7 +444,9 @@ func (nz *Normalizer) benignShadow(s *nfSite, found, obj types.Object) bool {
 // detectGuard recognises the guard that consumes the results of the call at site s.
 func (nz *Normalizer) detectGuard(fset *token.FileSet, s *nfSite, stmt ast.Stmt, parent ast.Node, src []byte) *guardInfo {
 	info := s.pkg.TypesInfo
-	textOf := func(n ast.Node) string { return string(src[fset.Position(n.Pos()).Offset:fset.Position(n.End()).Offset]) }
+	textOf := func(n ast.Node) string {
+		return string(src[fset.Position(n.Pos()).Offset:fset.Position(n.End()).Offset])
+	}
 	lhsOf := func(as *ast.AssignStmt) ([]types.Object, []string, bool) {
 		if as.Tok != token.DEFINE || len(as.Rhs) != 1 || as.Rhs[0] != ast.Expr(s.call) {
 			return nil, nil, false
@@ -499,7 +505,7 @@ func (nz *Normalizer) detectGuard(fset *token.FileSet, s *nfSite, stmt ast.Stmt,
 		if !ok {
 			return nil
 		}
-		g := &guardInfo{ifs: ifs, kind: kind, k: k, eval: ev, lhsObjs: objs, lhsText: txt}
+		g := &guardInfo{ifs: ifs, kind: kind, k: k, eval: ev, lhsObjs: objs, lhsText: txt, pkgs: s.pkg}
 		if lastConstRHS != nil {
 			// only the plain forms `v == K` / `v != K` (no surrounding negation) are handled
 			if be, isB := ast.Unparen(ifs.Cond).(*ast.BinaryExpr); !isB || (be.X != lastConstRHS && be.Y != lastConstRHS) {
@@ -590,8 +596,149 @@ func (g *guardInfo) evalAt(info *types.Info, e ast.Expr, calleeBody *ast.BlockSt
 		if encl != nil && !writesTo(info, encl.Body, obj) && !addressTakenOrClosureWritten(info, calleeBody, obj) {
 			return g.constNeg, true // value != K: `v != K` is true, `v == K` is false
 		}
+		// `ok, code := f(…); if !ok { …; return x, code }`: when every return of the own function f that can
+		// yield ok == false pairs it with a constant different from K, code differs from K here
+		if g.pkgs != nil && siblingFalseImpliesNotConst(g.pkgs, info, calleeBody, ret, obj, kv) {
+			return g.constNeg, true
+		}
 	}
 	return false, false
+}
+
+// siblingFalseImpliesNotConst: obj is result #j of `r0, …, rj := f(…)` in body, ret lies in the body of
+// the innermost `if !ri { … }` for a boolean sibling result ri of the same call (neither written in
+// between), f is a function declared in pkg, and every `return` of f whose i-th result is not the
+// literal true has a j-th result that is a constant different from k.
+func siblingFalseImpliesNotConst(pkg *packages.Package, info *types.Info, body *ast.BlockStmt, ret *ast.ReturnStmt, obj types.Object, k constant.Value) bool {
+	var def *ast.AssignStmt
+	j := -1
+	ast.Inspect(body, func(n ast.Node) bool {
+		as, ok := n.(*ast.AssignStmt)
+		if !ok || len(as.Rhs) != 1 || as.End() > ret.Pos() {
+			return true
+		}
+		if _, isCall := ast.Unparen(as.Rhs[0]).(*ast.CallExpr); !isCall {
+			return true
+		}
+		for idx, l := range as.Lhs {
+			if id, isID := l.(*ast.Ident); isID && (info.Defs[id] == obj || info.Uses[id] == obj) {
+				def, j = as, idx
+			}
+		}
+		return true
+	})
+	if def == nil || j < 0 {
+		return false
+	}
+	call := ast.Unparen(def.Rhs[0]).(*ast.CallExpr)
+	fn, _ := typeutil.Callee(info, call).(*types.Func)
+	if fn == nil {
+		return false
+	}
+	var fd *ast.FuncDecl
+	for _, f := range pkg.Syntax {
+		for _, d := range f.Decls {
+			if x, ok := d.(*ast.FuncDecl); ok && info.Defs[x.Name] == types.Object(fn) && x.Body != nil {
+				fd = x
+			}
+		}
+	}
+	if fd == nil {
+		return false
+	}
+	// the boolean sibling tested by the innermost enclosing if
+	var encl *ast.IfStmt
+	ast.Inspect(body, func(n ast.Node) bool {
+		if n == nil {
+			return true
+		}
+		if n.Pos() > ret.Pos() || n.End() < ret.End() {
+			return false
+		}
+		if ifs, ok := n.(*ast.IfStmt); ok && ifs.Body.Pos() <= ret.Pos() && ret.End() <= ifs.Body.End() {
+			encl = ifs
+		}
+		return true
+	})
+	if encl == nil {
+		return false
+	}
+	cond := ast.Unparen(encl.Cond)
+	un, ok := cond.(*ast.UnaryExpr)
+	if !ok || un.Op != token.NOT {
+		return false
+	}
+	cid, ok := ast.Unparen(un.X).(*ast.Ident)
+	if !ok {
+		return false
+	}
+	i := -1
+	for idx, l := range def.Lhs {
+		if id, isID := l.(*ast.Ident); isID && (info.Defs[id] != nil && info.Defs[id] == info.Uses[cid] || info.Uses[id] != nil && info.Uses[id] == info.Uses[cid]) {
+			i = idx
+		}
+	}
+	if i < 0 || i == j {
+		return false
+	}
+	sib := info.Uses[cid]
+	if sib == nil || writesTo(info, encl.Body, sib) || writesTo(info, encl.Body, obj) {
+		return false
+	}
+	// no write to either between the definition and the if
+	for _, st := range enclosingList(body, def) {
+		if st.Pos() > def.End() && st.End() <= encl.Pos() {
+			if writesTo(info, st, sib) || writesTo(info, st, obj) {
+				return false
+			}
+		}
+	}
+	// summary of f
+	okAll, n := true, 0
+	ast.Inspect(fd.Body, func(x ast.Node) bool {
+		switch r := x.(type) {
+		case *ast.FuncLit:
+			return false
+		case *ast.ReturnStmt:
+			n++
+			if len(r.Results) <= i || len(r.Results) <= j {
+				okAll = false
+				return false
+			}
+			if classifyConst(r.Results[i], info) == vkTrue {
+				return true
+			}
+			tv, has := info.Types[r.Results[j]]
+			if !has || tv.Value == nil || constant.Compare(tv.Value, token.EQL, k) {
+				okAll = false
+			}
+		}
+		return okAll
+	})
+	return okAll && n > 0
+}
+
+// enclosingList: the statement list of body (searched recursively) that contains st.
+func enclosingList(body *ast.BlockStmt, st ast.Stmt) []ast.Stmt {
+	var out []ast.Stmt
+	ast.Inspect(body, func(n ast.Node) bool {
+		var list []ast.Stmt
+		switch x := n.(type) {
+		case *ast.BlockStmt:
+			list = x.List
+		case *ast.CaseClause:
+			list = x.Body
+		case *ast.CommClause:
+			list = x.Body
+		}
+		for _, s := range list {
+			if s == st {
+				out = list
+			}
+		}
+		return out == nil
+	})
+	return out
 }
 
 // precedingAssign: the right-hand side assigned to obj by the statement that immediately precedes ret
